@@ -14,7 +14,7 @@ from harness.kcommon import c_elem
 
 MODEL = 'SIR_VariableInfection'
 
-BAD = ('{| vc_model := {| vim_specs := []; vim_events := []; vim_si := 0%nat; vim_infect := HNop |}; vc_nodes := []; vc_edges := []; '
+BAD = ('{| vc_model := {| vim_specs := []; vim_events := []; vim_si := 0%nat; vim_infect := HNop; vim_seed_post := None |}; vc_nodes := []; vc_edges := []; '
        'vc_init := []; vc_maxtime := 0; vc_monitor := None; vc_sync := false; vc_inf_rands := []; vc_rands := []; vc_lns := []; '
        'vc_draws := []; vio_inf := []; vio_handlers := []; vio_taps := []; vio_final_comp := []; vio_final_loci := []; vio_occ := []; '
        'vio_hit := []; vio_counts := []; vio_observations := []; vio_time := 0; vio_events := 0%nat; vio_steps := 0%nat; vio_ok := false |}')
@@ -64,8 +64,15 @@ def to_coq_vi(case, obs):
     nreg = len(regs)
     events = ['{| ce_elem := true; ce_locus := %s; ce_p := %s; ce_kind := %s |}' % (
         L.nat(r['li']), L.q(r['p']), hkind(MODEL, r['fn'], code, sp, pv, nreg)) for r in regs]
-    vm = '{| vim_specs := %s; vim_events := %s; vim_si := %s; vim_infect := %s |}' % (
-        L.lst(specs), L.lst(events), L.nat(si), hkind(MODEL, 'infect', code, sp, pv, nreg))
+    seed_post = 'None'
+    if case.get('vi_post') is not None:
+        # the harness' subclass: setUp posts postEvent(T, n, self.remove) for every initially infected node
+        krem = [j for j, r in enumerate(regs) if r['fn'] == 'remove']
+        if len(krem) != 1:
+            return BAD
+        seed_post = '(Some (%s, %s, %s))' % (L.z(code[sp['I']]), L.q(case['vi_post']), L.nat(krem[0]))
+    vm = '{| vim_specs := %s; vim_events := %s; vim_si := %s; vim_infect := %s; vim_seed_post := %s |}' % (
+        L.lst(specs), L.lst(events), L.nat(si), hkind(MODEL, 'infect', code, sp, pv, nreg), seed_post)
     s0 = obs['snaps'][0]
     g = compart.make_graph(case['graph'])
     nodes = list(g.nodes())
